@@ -9,20 +9,27 @@
 
 #include <sstream>
 
+#ifndef VERIF_INTERNALS
+#define VERIF_INTERNALS 1
+#endif
+
 namespace powcli {
 
-std::size_t clz(std::span<const std::uint8_t> digest) { return ::count_leading_zero_bits(digest); }
+#if VERIF_INTERNALS
+// anonymous-namespace helpers of main.cpp, reached by name
+std::size_t clz(std::span<const std::uint8_t> digest) { return count_leading_zero_bits(digest); }
 
 std::array<std::uint8_t, 32> digest(const ephemeralnet::PeerId& a, const ephemeralnet::PeerId& b, std::uint32_t pub, std::uint64_t nonce) {
-    return ::transport_handshake_digest(a, b, pub, nonce);
+    return transport_handshake_digest(a, b, pub, nonce);
 }
 bool valid(const ephemeralnet::PeerId& a, const ephemeralnet::PeerId& b, std::uint32_t pub, std::uint64_t nonce, std::uint8_t d) {
-    return ::transport_pow_valid(a, b, pub, nonce, d);
+    return transport_pow_valid(a, b, pub, nonce, d);
 }
 std::optional<std::uint64_t> solve(const ephemeralnet::PeerId& a, const ephemeralnet::PeerId& b, std::uint32_t pub, std::uint8_t d) {
-    return ::compute_transport_pow(a, b, pub, d);
+    return compute_transport_pow(a, b, pub, d);
 }
-std::uint64_t max_attempts() { return ::kTransportPowMaxAttempts; }
+std::uint64_t max_attempts() { return kTransportPowMaxAttempts; }
+#endif
 
 int run(const std::vector<std::string>& args, std::string& out, std::string& err) {
     std::vector<char*> argv;
